@@ -273,6 +273,14 @@ class CEmitter:
             return '%s->data' % self.pex(args[0])
         if name in ('vec_size',):
             return '%s->size' % self.pex(args[0])
+        if name == 'vec_elem':
+            et = e[1][1]
+            vt = self.ctype(('vec', et))
+            fn = 'phqv_vec_elem_%s' % cident(tstr(et))
+            self.helpers[fn] = ('/* std::vector::operator[] / at / front / back: precondition index < size() */\n'
+                                'static %s *%s(%s *v, unsigned long n) {\n  __CPROVER_assert(n < v->size, "std::vector element access: index < size()");\n  return v->data + n;\n}\n') % (
+                                    self.ctype(et), fn, vt)
+            return '%s(%s, %s)' % (fn, self.ex(args[0]), self.ex(args[1]))
         if name == 'hash':
             at = args[0][1]
             tag = {'float': 'f', 'double': 'd', 'long double': 'ld'}.get(at[1] if at[0] == 'f' else '', 'i%d' % (at[1] if at[0] == 'i' else 0))
